@@ -90,6 +90,8 @@ mod source_repr;
 pub mod val_gen;
 
 mod df;
+#[cfg(all(rtcm_rs_verif, feature = "std"))]
+pub mod verif_hooks;
 pub mod msg;
 pub mod rtcm_error;
 pub mod util;
